@@ -5,7 +5,7 @@
    SlowCycle.  The configuration of each trace (terminals with the FMMUs the group programmed
    into them, variables, number of devices) comes from the trace file.
 
-   Any event that is not send / recv / update (the run loop crashed, or stalled) matches no
+   Any event that is not send / recv / lost / update (the run loop crashed, or stalled) matches no
    action and is where the trace is rejected.
 
    Why(i) names, for the event at which trace i was rejected, the demands of SlowCycle that it
@@ -26,6 +26,7 @@ TNext == /\ l <= Len(Traces[tid].ev)
          /\ LET e == Ev IN
               \/ e.t = "send" /\ Send(e.dg)
               \/ e.t = "recv" /\ Receive(e.dg)
+              \/ e.t = "lost" /\ Lose(e.errs)
               \/ e.t = "update" /\ Update(Obs(e))
 TSpec == TInit /\ [][TNext]_tvars
 
@@ -48,7 +49,9 @@ Why(i) ==
                 want == IF m = 0 THEN "send"
                         ELSE IF tr.ev[m].t = "send" THEN "recv"
                         ELSE IF tr.ev[m].t = "recv" THEN "update" ELSE "send"
-            IN IF e.t # want THEN {"expected " \o want \o ", got " \o e.t}
+            IN IF e.t = "lost" /\ want = "recv"
+               THEN {"wkc_errors changed to " \o ToString(e.errs) \o " though nothing was returned"}
+               ELSE IF e.t # want THEN {"expected " \o want \o ", got " \o e.t}
                ELSE IF e.t = "send" THEN
                    (IF kk >= 1 /\ ~Cleared(e.dg) THEN {"working counter not cleared"} ELSE {})
                    \cup (IF kk >= 1 /\ ~OutputsSent(c, e.dg, tr.ev[pu].sets)
